@@ -141,6 +141,9 @@ fn pitch(rng: &mut Rng) -> f64 {
 fn three_d(rng: &mut Rng) {
     let cs = *rng.pick(&[1.0, 30.0, 1e3]);
     let (rx, ry, rz) = (rng.range(-PI, PI), pitch(rng), rng.range(-PI, PI));
+    // one pose in six starts from a SMALL rotation (1e-7 … 1e-2 rad about every axis: a fine correction, the second
+    // pass of an alignment): small is not none
+    let (rx, ry, rz) = if rng.chance(0.17) { let m = 10f64.powf(rng.range(-7.0, -2.0)); (rng.range(-1.0, 1.0) * m, rng.range(-1.0, 1.0) * m, rng.range(-1.0, 1.0) * m) } else { (rx, ry, rz) };
     let rot = UnitQuaternion::from_euler_angles(rx, 0.0, 0.0) * UnitQuaternion::from_euler_angles(0.0, ry, 0.0) * UnitQuaternion::from_euler_angles(0.0, 0.0, rz);
     // Euler matrices, their round trip through to_wpr and the derivative matrices
     {
